@@ -16,8 +16,11 @@
 //        12 s         slot[s].reset()                                   -> 0
 //        13 s         slot[s] ? slot[s]->value : -1
 // Every predicate calls vs::user_call(id of the visited object) before testing it.
+// shared_ptr instances are vstd::shared_ptr (soh_extra.hpp): a copy is a read window on its source, the
+// destruction of a non-empty instance a write window; client-side reset / move assignment are silent.
 #include "vstd.hpp"
 #include "vpay.hpp"
+#include "soh_extra.hpp"  // vstd::shared_ptr: copies / destructions of shared_ptr instances are visible
 #define std vstd
 #define private public  // harness-side only: lets final() read the maps without events
 #include "gmlc/concurrency/SearchableObjectHolder.hpp"
@@ -46,7 +49,7 @@ struct Pay {
         led->destroyed[id] = 1;
     }
 };
-using Ptr = std::shared_ptr<Pay>;
+using Ptr = vstd::shared_ptr<Pay>;
 using Pred = std::function<bool(const Ptr&)>;
 std::string nm(long n) { return "n" + std::to_string(1000 + n); }  // order of names = order of numbers
 long unnm(const std::string& s) { return std::stol(s.substr(1)) - 1000; }
@@ -63,11 +66,12 @@ struct SohComp {
     explicit SohComp(const vs::Case& c): slots(c.progs.size()), slot_ids(c.progs.size(), std::array<long, 2>{0, 0})
     {
         vs::plan().reset(c.cfg);
+        vs::ptrreg().reset();
     }
 
     Ptr make(long v)
     {
-        Ptr p = std::make_shared<Pay>(next_id++, v, &led);
+        Ptr p(std::make_shared<Pay>(next_id++, v, &led));
         all.emplace_back(p);
         return p;
     }
@@ -109,7 +113,11 @@ struct SohComp {
             case 9: return holder.checkObjectType(nm(o[1]), (int)o[2]);
             case 10: {
                 long r = 0;
-                for (auto& p : holder.getObjects()) r = r * 32 + idof(p);
+                auto objs = holder.getObjects();
+                for (auto& p : objs) {
+                    r = r * 32 + idof(p);
+                    p.reset();  // the client lets go of each copy (silent); the vector then dies empty
+                }
                 return r;
             }
             case 11: return holder.empty();
